@@ -493,6 +493,7 @@ func (g *declGen) group(ns *nameSets, nsPrefix string, depth int, allowEmpty boo
 				break
 			}
 			o.ViaAdd = true
+			o.Field = "" // (there is no struct field)
 			if !pct(t, "viaAddMore", 40) {
 				break
 			}
